@@ -116,7 +116,8 @@ class PrimaiteIO:
         path.touch()
         _LOGGER.info(f"Saving agent action log to {path}")
         with open(path, "w") as file:
-            json.dump(data, fp=file, indent=1, default=lambda x: x.model_dump())
+            # history items are pydantic models; their request / response data may hold other objects (e.g. IP addresses)
+            json.dump(data, fp=file, indent=1, default=lambda x: x.model_dump() if hasattr(x, "model_dump") else str(x))
 
     @classmethod
     def from_config(cls, config: Dict) -> "PrimaiteIO":
